@@ -583,7 +583,7 @@ func (w *bWorld) genPatches(create bool) []workload.PatchDesc {
 		}
 
 		if kind == workload.AddAKA {
-			pool = []string{"https://a.example/1", "did:ex:2"}
+			pool = []string{"https://a.example/1", "did:ex:2", "https://a.example/\u00fc?x=1&y=<2>"}
 		}
 
 		first := w.k.Draw(len(pool), "patch.id")
